@@ -179,7 +179,7 @@ impl Property for C02 {
     }
     fn strategy(&self, tier: Tier) -> BoxedStrategy<Case> {
         let direct: BoxedStrategy<Case> = {
-        proptest::collection::vec(op(), 1..tier.pick(30usize, 60usize)).prop_map(|ops| Case { ops, sweep: None }).boxed()
+        (proptest::collection::vec(op(), 1..tier.pick(30usize, 60usize)), crate::engine::repeats()).prop_map(|(ops, reps)| Case { ops: crate::engine::with_repeats(ops, &reps), sweep: None }).boxed()
         };
         match crate::sweep::strategy(crate::sweep::Rule::Consume) {
             Some(sw) => prop_oneof![9 => direct, 1 => sw.prop_map(|s| Case { ops: vec![], sweep: Some(s) })].boxed(),
